@@ -298,6 +298,9 @@ class AsyncPolicy:
                 record_success(ctx)
             elif outcome.stop_reason == StopReason.ABORTED:
                 record_cancel(ctx)
+            elif isinstance(outcome.last_exception, CircuitOpenError):
+                # Rejection by a nested breaker: not counted, exactly as in call().
+                record_cancel(ctx)
             else:
                 klass = outcome.last_class or ErrorClass.UNKNOWN
                 record_failure(ctx, klass)
@@ -343,7 +346,11 @@ class AsyncPolicy:
 
         except Exception as exc:
             klass = classify_for_breaker(exc, None)
-            record_failure(ctx, klass)
+            if isinstance(exc, CircuitOpenError):
+                # Rejection by a nested breaker: not counted, exactly as in call().
+                record_cancel(ctx)
+            else:
+                record_failure(ctx, klass)
             if on_end is not None:
                 on_end(
                     make_attempt_context(
